@@ -32,6 +32,7 @@ theorem caseTag_ok {E : Env} {F : Fixed} {st : St} {lp : Loop} {c : UInt8} (hI :
         -- start of the attribute value
         have hnone : CaseGood E st lp (.next { st1 with tagAttr := attr } { lp with p := next }) :=
           NextGood.same hI hb1 ht1 (by show st1.tagIndex ≤ st1.base + next; have := hI.tag_le; omega) hgt hn2
+            hs1.contexts hs1.bases
         split
         · rename_i q hq
           have hqlt : next < srcLen E st := by
@@ -45,11 +46,13 @@ theorem caseTag_ok {E : Env} {F : Fixed} {st : St} {lp : Loop} {c : UInt8} (hI :
           have hquote : ∃ st2 lp2, (if q = 0x22 ∨ q = 0x27 then
                 (addCol { st1 with tagAttr := attr } 1, { ({ lp with p := next } : Loop) with quote := q, p := next + 1 })
               else ({ st1 with tagAttr := attr }, ({ lp with p := next } : Loop))) = (st2, lp2) ∧
-              st2.base = st.base ∧ st2.toks = st.toks ∧ st2.tagIndex = st.tagIndex ∧ next ≤ lp2.p ∧ lp2.p ≤ srcLen E st := by
+              st2.base = st.base ∧ st2.toks = st.toks ∧ st2.tagIndex = st.tagIndex ∧ next ≤ lp2.p ∧ lp2.p ≤ srcLen E st ∧
+              st2.contexts = st.contexts ∧ st2.bases = st.bases := by
             split
-            · exact ⟨_, _, rfl, hb1, ht1, hti1, by show next ≤ next + 1; omega, by show next + 1 ≤ _; omega⟩
-            · exact ⟨_, _, rfl, hb1, ht1, hti1, Nat.le_refl _, by show next ≤ _; omega⟩
-          obtain ⟨st2, lp2, he, hb2, ht2, hti2, hp2, hp2'⟩ := hquote
+            · exact ⟨_, _, rfl, hb1, ht1, hti1, by show next ≤ next + 1; omega, by show next + 1 ≤ _; omega,
+                hs1.contexts, hs1.bases⟩
+            · exact ⟨_, _, rfl, hb1, ht1, hti1, Nat.le_refl _, by show next ≤ _; omega, hs1.contexts, hs1.bases⟩
+          obtain ⟨st2, lp2, he, hb2, ht2, hti2, hp2, hp2', hcx2, hbs2⟩ := hquote
           simp only [he]
           have hsl2 : srcLen E st2 = srcLen E st := by unfold srcLen; rw [hb2]
           split
@@ -63,7 +66,7 @@ theorem caseTag_ok {E : Env} {F : Fixed} {st : St} {lp : Loop} {c : UInt8} (hI :
             simp only [h4, bind_ok, pure_eq_ok]
             refine ⟨_, rfl, ?_⟩
             have e23 : Ext E st st3 := by
-              have : Ext E st st2 := (Ext.refl hI.base_le).of_eq hb2 ht2
+              have : Ext E st st2 := (Ext.refl hI.base_le).of_eq hb2 ht2 hcx2 hbs2
               exact this.trans e3
             have e34 : Ext E st st4 := e23.trans ((e4 : Ext E _ st4))
             have hbase4 : st4.base = st.base + lp2.p := by rw [b4]; show st3.base + 0 = _; rw [b3, hb2]; omega
@@ -78,12 +81,13 @@ theorem caseTag_ok {E : Env} {F : Fixed} {st : St} {lp : Loop} {c : UInt8} (hI :
               rw [hbase4] at this ⊢
               omega
           · refine ⟨_, rfl, ?_⟩
-            apply NextGood.same hI (st' := { st2 with tagIndex := st2.base + lp2.p, ctx := _ }) hb2 ht2
+            refine NextGood.same hI (st' := { st2 with tagIndex := st2.base + lp2.p, ctx := _ }) hb2 ht2 ?_ ?_ ?_
+              hcx2 hbs2
             · exact Nat.le_refl _
             · omega
             · exact hp2'
         · exact ⟨_, rfl, hnone⟩
-      · exact ⟨_, rfl, fall_same hI hb1 ht1 hti1 (Nat.le_refl _) hlt⟩
+      · exact ⟨_, rfl, fall_same hI hb1 ht1 hti1 (Nat.le_refl _) hlt hs1.contexts hs1.bases⟩
     · exact ⟨_, rfl, fall_same hI rfl rfl rfl (Nat.le_refl _) hlt⟩
 
 theorem ctxSwitch_ok {E : Env} {F : Fixed} {st : St} {lp : Loop} {c : UInt8} (hI : LoopInv E st lp)
@@ -133,11 +137,11 @@ theorem tail_ok {E : Env} {st st' : St} {lp lp' : Loop} (c : UInt8) (_hI : LoopI
   obtain ⟨hI', e', hpos, hlt⟩ := hg
   -- every result of `tail` has the same base, tokens and tagIndex as `st'` and `p ≥ lp'.p + 1`
   have key : ∀ (s : St) (l : Loop), s.base = st'.base → s.toks = st'.toks → s.tagIndex = st'.tagIndex →
-      lp'.p + 1 ≤ l.p → l.p ≤ srcLen E st' →
+      s.contexts = st'.contexts → s.bases = st'.bases → lp'.p + 1 ≤ l.p → l.p ≤ srcLen E st' →
       LoopInv E s l ∧ Ext E st s ∧ mu E s l < mu E st lp := by
-    intro s l hb ht hti hp hle
+    intro s l hb ht hti hcx hbs hp hle
     have hs : srcLen E s = srcLen E st' := by unfold srcLen; rw [hb]
-    refine ⟨⟨hb ▸ hI'.base_le, by rw [hs]; exact hle, ?_⟩, e'.of_eq hb ht, ?_⟩
+    refine ⟨⟨hb ▸ hI'.base_le, by rw [hs]; exact hle, ?_⟩, e'.of_eq hb ht hcx hbs, ?_⟩
     · have := hI'.tag_le; rw [hti, hb]; omega
     · unfold mu
       have := attrCtx_le s.ctx
@@ -164,26 +168,26 @@ theorem tail_ok {E : Env} {st st' : St} {lp lp' : Loop} (c : UInt8) (_hI : LoopI
     have hst : (scanCodeBlock E (newline st') p2).2.2.toks = st'.toks := hs.toks
     have hsti : (scanCodeBlock E (newline st') p2).2.2.tagIndex = st'.tagIndex := by rw [hs]; rfl
     split
-    · exact key _ _ hsb hst hsti (by show lp'.p + 1 ≤ (scanCodeBlock E (newline st') p2).1; omega) hq2
+    · exact key _ _ hsb hst hsti hs.contexts hs.bases (by show lp'.p + 1 ≤ (scanCodeBlock E (newline st') p2).1; omega) hq2
     · split
       · split
-        · exact key _ _ hsb hst hsti (by show lp'.p + 1 ≤ (scanCodeBlock E (newline st') p2).1; omega) hq2
-        · exact key _ _ rfl rfl rfl hp1 hp2
-      · exact key _ _ rfl rfl rfl hp1 hp2
+        · exact key _ _ hsb hst hsti hs.contexts hs.bases (by show lp'.p + 1 ≤ (scanCodeBlock E (newline st') p2).1; omega) hq2
+        · exact key _ _ rfl rfl rfl rfl rfl hp1 hp2
+      · exact key _ _ rfl rfl rfl rfl rfl hp1 hp2
   · split
-    · exact key _ _ rfl rfl rfl (Nat.le_refl _) (by show lp'.p + 1 ≤ _; omega)
-    · exact key _ _ rfl rfl rfl (Nat.le_refl _) (by show lp'.p + 1 ≤ _; omega)
+    · exact key _ _ rfl rfl rfl rfl rfl (Nat.le_refl _) (by show lp'.p + 1 ≤ _; omega)
+    · exact key _ _ rfl rfl rfl rfl rfl (Nat.le_refl _) (by show lp'.p + 1 ≤ _; omega)
 
 /-- `lexShow`, `lexStatement`, `lexStatements` -/
 theorem lexBlock_ok {E : Env} (hC : CodeSpec E) {st : St} {openT closeT n : Nat} (hb : st.base ≤ E.text.length)
-    (hn : n ≤ srcLen E st)
+    (hB : Bal st) (hn : n ≤ srcLen E st)
     (hclose : (n = 2 ∧ (closeT = tokenRightBraces ∨ closeT = tokenEndStatement)) ∨ (n = 3 ∧ closeT = tokenEndStatements)) :
     ∃ st' e, lexBlock E st openT closeT n = .ok (st', e) ∧ Ext E st st' ∧ st'.tagIndex = st.tagIndex ∧
       (e = none → st.base + n + n ≤ st'.base) := by
   unfold lexBlock
   obtain ⟨st1, h1, e1, b1, _, t1⟩ := emitAdv_ok (E := E) (st := st) (typ := openT) (n := n) hn hb
   simp only [h1, bind_ok]
-  obtain ⟨st2, e, h2, e2, t2, hpost⟩ := hC.lexCode_ok closeT st1 e1.le_len
+  obtain ⟨st2, e, h2, e2, t2, hpost⟩ := hC.lexCode_ok closeT st1 e1.le_len (e1.bal hB)
   simp only [h2, bind_ok]
   cases e with
   | some err => exact ⟨st2, some err, rfl, e1.trans e2, by rw [t2, t1], by intro h; cases h⟩
@@ -207,7 +211,7 @@ def OutGood (E : Env) (st : St) (lp : Loop) : Out → Prop
   | .stop st' _ _ => Ext E st st'
 
 theorem delim_ok {E : Env} (hC : CodeSpec E) {st : St} {lp : Loop} {which : Nat} (hI : LoopInv E st lp)
-    (h2 : lp.p + 2 ≤ srcLen E st) (hw : which ≤ 2) :
+    (hB : Bal st)     (h2 : lp.p + 2 ≤ srcLen E st) (hw : which ≤ 2) :
     ∃ o, delim E st lp which = .ok o ∧ OutGood E st lp o := by
   unfold delim
   obtain ⟨st1, h1, e1, b1, _, t1, _⟩ := flushText_ok hI
@@ -220,17 +224,17 @@ theorem delim_ok {E : Env} (hC : CodeSpec E) {st : St} {lp : Loop} {which : Nat}
       (e = none → st1.base + 4 ≤ st2.base) := by
     split
     · obtain ⟨st2, e, h, ex, t, p⟩ := lexBlock_ok hC (E := E) (st := st1) (openT := tokenLeftBraces) (closeT := tokenRightBraces)
-        (n := 2) e1.le_len (by omega) (Or.inl ⟨rfl, Or.inl rfl⟩)
+        (n := 2) e1.le_len (e1.bal hB) (by omega) (Or.inl ⟨rfl, Or.inl rfl⟩)
       exact ⟨st2, e, h, ex, t, fun he => by have := p he; omega⟩
     · split
       · split
         · rename_i hpk
           have := peekIs_lt hpk
           obtain ⟨st2, e, h, ex, t, p⟩ := lexBlock_ok hC (E := E) (st := st1) (openT := tokenStartStatements)
-            (closeT := tokenEndStatements) (n := 3) e1.le_len (by omega) (Or.inr ⟨rfl, rfl⟩)
+            (closeT := tokenEndStatements) (n := 3) e1.le_len (e1.bal hB) (by omega) (Or.inr ⟨rfl, rfl⟩)
           exact ⟨st2, e, h, ex, t, fun he => by have := p he; omega⟩
         · obtain ⟨st2, e, h, ex, t, p⟩ := lexBlock_ok hC (E := E) (st := st1) (openT := tokenStartStatement)
-            (closeT := tokenEndStatement) (n := 2) e1.le_len (by omega) (Or.inl ⟨rfl, Or.inr rfl⟩)
+            (closeT := tokenEndStatement) (n := 2) e1.le_len (e1.bal hB) (by omega) (Or.inl ⟨rfl, Or.inr rfl⟩)
           exact ⟨st2, e, h, ex, t, fun he => by have := p he; omega⟩
       · obtain ⟨st2, e, h, ex, _, p⟩ := lexComment_ok (E := E) (st := st1) e1.le_len (by omega)
         refine ⟨st2, e, h, ex, ?_, p⟩
@@ -291,9 +295,9 @@ theorem delim_ok {E : Env} (hC : CodeSpec E) {st : St} {lp : Loop} {which : Nat}
         exact ⟨_, rfl, hcont s p hs hp⟩
     · exact ⟨_, rfl, hcont st2 0 (SameButPos.refl st2) (Nat.zero_le _)⟩
 
-theorem step_ok {E : Env} (hC : CodeSpec E) {F : Fixed} {st : St} {lp : Loop} (hI : LoopInv E st lp)
-    (hlt : lp.p < srcLen E st) :
-    ∃ o, step E F st lp = .ok o ∧ OutGood E st lp o := by
+theorem step_ok {E : Env} (hC : CodeSpec E) {st : St} {lp : Loop} (hI : LoopInv E st lp)
+    (hB : Bal st) (hlt : lp.p < srcLen E st) :
+    ∃ o, step E st lp = .ok o ∧ OutGood E st lp o := by
   unfold step
   obtain ⟨c, hc, hpk⟩ := srcAt_ok_of_lt hlt
   simp only [hc, bind_ok]
@@ -324,7 +328,7 @@ theorem step_ok {E : Env} (hC : CodeSpec E) {F : Fixed} {st : St} {lp : Loop} (h
         (by show s.tagIndex ≤ s.base + p
             have : s.tagIndex = st.tagIndex := by rw [hss]
             rw [this, hss.base]; have := hI1.tag_le; omega)
-        (by show lp1.p < p; omega) hle
+        (by show lp1.p < p; omega) hle hss.contexts hss.bases
       exact this.good hI1
     cases hd : peek E (addCol st 1) (lp1.p + 1) with
     | none =>
@@ -355,21 +359,21 @@ theorem step_ok {E : Env} (hC : CodeSpec E) {F : Fixed} {st : St} {lp : Loop} (h
     generalize hdd : (if lp1.p + 1 < srcLen E st then peek E st (lp1.p + 1) else none) = d at hd2
     split
     · rename_i hcond
-      obtain ⟨o, ho, hg⟩ := delim_ok hC (which := 0) hI1 (hd2 _ hcond.2.1) (by omega)
+      obtain ⟨o, ho, hg⟩ := delim_ok hC (which := 0) hI1 hB (hd2 _ hcond.2.1) (by omega)
       exact ⟨o, ho, lift o hg⟩
     · split
       · rename_i hcond
-        obtain ⟨o, ho, hg⟩ := delim_ok hC (which := 1) hI1 (hd2 _ hcond.2) (by omega)
+        obtain ⟨o, ho, hg⟩ := delim_ok hC (which := 1) hI1 hB (hd2 _ hcond.2) (by omega)
         exact ⟨o, ho, lift o hg⟩
       · split
         · rename_i hcond
-          obtain ⟨o, ho, hg⟩ := delim_ok hC (which := 2) hI1 (hd2 _ hcond.2) (by omega)
+          obtain ⟨o, ho, hg⟩ := delim_ok hC (which := 2) hI1 hB (hd2 _ hcond.2) (by omega)
           exact ⟨o, ho, lift o hg⟩
         · split
           · obtain ⟨s, hsk, _, hext⟩ := skip_ok (E := E) (st := st) (k := lp1.p) (by omega) hI.base_le
             simp only [hsk, bind_ok, pure_eq_ok]
             exact ⟨_, rfl, hext⟩
-          · obtain ⟨o, ho, hg⟩ := ctxSwitch_ok (F := F) hI1 hlt1 hpk1
+          · obtain ⟨o, ho, hg⟩ := ctxSwitch_ok (F := fixedOf st) hI1 hlt1 hpk1
             simp only [ho, bind_ok]
             cases o with
             | next s l => exact ⟨_, rfl, lift _ hg⟩
@@ -379,25 +383,25 @@ theorem step_ok {E : Env} (hC : CodeSpec E) {F : Fixed} {st : St} {lp : Loop} (h
               refine ⟨_, rfl, lift _ ?_⟩
               exact this
 
-theorem mainLoop_ok {E : Env} (hC : CodeSpec E) {F : Fixed} : ∀ (fuel : Nat) (st : St) (lp : Loop),
-    LoopInv E st lp → mu E st lp < fuel →
-    ∃ st' lp' e, mainLoop E F fuel st lp = .ok (st', lp', e) ∧ Ext E st st' ∧
+theorem mainLoop_ok {E : Env} (hC : CodeSpec E) : ∀ (fuel : Nat) (st : St) (lp : Loop),
+    LoopInv E st lp → Bal st → mu E st lp < fuel →
+    ∃ st' lp' e, mainLoop E fuel st lp = .ok (st', lp', e) ∧ Ext E st st' ∧
       (e = none → lp'.p = srcLen E st') := by
   intro fuel
   induction fuel with
-  | zero => intro _ _ _ h; omega
+  | zero => intro _ _ _ _ h; omega
   | succ fuel ih =>
-    intro st lp hI hf
+    intro st lp hI hB hf
     unfold mainLoop
     split
     · rename_i hlt
-      obtain ⟨o, ho, hg⟩ := step_ok hC (F := F) hI hlt
+      obtain ⟨o, ho, hg⟩ := step_ok hC hI hB hlt
       simp only [ho, bind_ok]
       cases o with
       | cont s l =>
         simp only []
         obtain ⟨hI', e', hm⟩ := hg
-        obtain ⟨st', lp', e, h, ex, hp⟩ := ih s l hI' (by omega)
+        obtain ⟨st', lp', e, h, ex, hp⟩ := ih s l hI' (e'.bal hB) (by omega)
         exact ⟨st', lp', e, h, e'.trans ex, hp⟩
       | stop s l err => exact ⟨s, l, some err, rfl, hg, by intro h; cases h⟩
     · rename_i hge
